@@ -67,7 +67,7 @@ def run_layout(F, rep, write_rules=(), read_rules=(), roundtrip=False, reencode=
 # ---------------------------------------------------------------------------------------------
 def C01(F, rep, tier, cx):
     """L1/L2: read() interpreted over the symbolic output of write() for every class and guard path; L6 length
-    pre-processing; L8 size function well-founded; D1 factory round trip; C1 commit completeness; S3 decode starts at the object start Also: S2 the factory is asked unconditionally and nothing else skips; P4/P6 nothing unread is dropped or rewound into; R5/B7 the stream stores every byte it advances over and copies from the container that holds the position; K12 write sessions are drained; A1 the API passes objects and state through; F3p payload provenance."""
+    pre-processing; L8 size function well-founded; D1 factory round trip; C1 commit completeness; S3 decode starts at the object start Also: S2 the factory is asked unconditionally and nothing else skips; P4/P6 nothing unread is dropped or rewound into; R5/B7 the stream stores every byte it advances over and copies from the container that holds the position; K12 write sessions are drained; A1 the API passes objects and state through; F3p payload provenance. Round 6: K2/T2 no mutual wait on the stream, K7 one role per side, F8 in-order writes."""
     run_layout(F, rep, write_rules=('L6', 'L8'), roundtrip=True, extra_classes=(FILESTAT,))
     RD.D123(F, rep)
     RF.C1(F, rep, cx.FL)
@@ -88,13 +88,13 @@ def C01(F, rep, tier, cx):
 
 
 def C02(F, rep, tier, cx):
-    """L2r: write() interpreted from the state read() leaves, for every reader path over arbitrary input; L7 nothing dropped L9 every member that decides a decoded shape is unsigned; L7 also: no skip of a length taken from the image; findings are keyed by reader-path condition."""
+    """L2r: write() interpreted from the state read() leaves, for every reader path over arbitrary input; L7 nothing dropped L9 every member that decides a decoded shape is unsigned; L7 also: no skip of a length taken from the image; findings are keyed by reader-path condition. Round 6: a recomputed length equals the length read unless the decoder clamped the count."""
     run_layout(F, rep, read_rules=('L7', 'L9'), reencode=True, extra_classes=(FILESTAT,))
 
 
 def C03(F, rep, tier, cx):
     """L3 bytes emitted == calculateObjectSize(); L4 header bytes == calculateHeaderSize(); L5 pad set and pairing; L6 lengths derived
-    from containers; L8 well-founded size function; B2 write sources bounded; L1 decoding consumes exactly what was emitted"""
+    from containers; L8 well-founded size function; B2 write sources bounded; L1 decoding consumes exactly what was emitted Round 6: an encoder throws before its first byte or not at all (torn object)."""
     run_layout(F, rep, write_rules=('L3', 'L4', 'L5', 'L6', 'L8', 'B2'), roundtrip=True)
     RF.R5(F, rep, cx.FL)   # the padding (and every other byte) an object emits is stored by the stream: the put position moves only over stored bytes
 
@@ -141,7 +141,7 @@ def format_table(F, rep, LR, cls, table, rule, total=None):
 
 def C04(F, rep, tier, cx):
     """F1/F2 container and statistics layouts equal the format tables; L3/L4/L5 on LogContainer; F3 method/level flow; F4 cut size flow;
-    F5/F6 who may write the compressed file / the uncompressed stream; E2 compress2 result checked Also: L3 for every object class (the payload can be walked by declared sizes); F3p payload provenance; F4 setter identity; G1; R1/R4/R5 the stream completes and stores every chunked request; K2/K2a/K12 no worker gives up early."""
+    F5/F6 who may write the compressed file / the uncompressed stream; E2 compress2 result checked Also: L3 for every object class (the payload can be walked by declared sizes); F3p payload provenance; F4 setter identity; G1; R1/R4/R5 the stream completes and stores every chunked request; K2/K2a/K12 no worker gives up early. Round 6: F8 pieces reach the file in call order, K9c level read behind the blocking read."""
     LR = run_layout(F, rep, write_rules=('L3', 'L4', 'L5', 'L6', 'B2'), roundtrip=True, only=[LOGCONT])
     # the payload is a sequence of objects an independent decoder can walk by the declared sizes: every class emits what its header declares
     run_layout(F, rep, write_rules=('L3',))
@@ -189,7 +189,7 @@ def stat_size(F, rep):
 
 def C05(F, rep, tier, cx):
     """H1 counters bumped exactly once per committed container/object on every path; H2 close() ordering; F2 144-byte statistics layout,
-    read/write symmetric Also: H1 no stray bumps, H3 owned header fields, H4 counter widths, H2 open clause (one += statisticsSize per opening path, already-open path untouched) and restore-point clause."""
+    read/write symmetric Also: H1 no stray bumps, H3 owned header fields, H4 counter widths, H2 open clause (one += statisticsSize per opening path, already-open path untouched) and restore-point clause. Round 6: H1 a container taken from the file is handed on and counted; K2, K12."""
     RF.H1(F, rep, cx.FL)
     RF.H2(F, rep, cx.R, cx.FL)
     RF.H3(F, rep)
@@ -203,7 +203,7 @@ def C05(F, rep, tier, cx):
 
 def C06(F, rep, tier, cx):
     """K2 wait form; K3 notify completeness (role-aware); K4 lock order; K5 end-of-stream on every worker exit a valid session can take;
-    K6 release-before-join; K10 no exception leaves a thread body; T2 request size <= admission threshold (conditional lemma) Also: K2a bare disjuncts, K2s sibling waits, K2u signed fill level (fill-level protocol), T2 hand-off shape, P6 no rewind after a drop, R2 the end handling on every path of read(), S1 the re-synchronisation loop leaves at end-of-file."""
+    K6 release-before-join; K10 no exception leaves a thread body; T2 request size <= admission threshold (conditional lemma) Also: K2a bare disjuncts, K2s sibling waits, K2u signed fill level (fill-level protocol), T2 hand-off shape, P6 no rewind after a drop, R2 the end handling on every path of read(), S1 the re-synchronisation loop leaves at end-of-file. Round 6: M1 mode tests on the in/out bits only, K12 workers end on their input, K15 abort is final, K7."""
     RP.K1(F, rep, cx.R)   # carries the K4|self obligations; K1 itself is C11's
     rep.obs = [o for o in rep.obs if o['rule'] != 'K1']
     rep.counts.pop('K1', None)
@@ -229,7 +229,7 @@ def C06(F, rep, tier, cx):
 
 def C07(F, rep, tier, cx):
     """K7 single producer / single consumer per stage and mode; K8 no transfer after end-of-stream; Q2 eof only on the empty branch;
-    K1 all stage state under the stage mutex Also: K2/K2a, K11 no decision on a racy snapshot, K12 drained write sessions, K2u, T2, O1, S4 seekg independent of the put position."""
+    K1 all stage state under the stage mutex Also: K2/K2a, K11 no decision on a racy snapshot, K12 drained write sessions, K2u, T2, O1, S4 seekg independent of the put position. Round 6: G1, K13."""
     ws = RP.K2(F, rep, cx.R)   # a timed or bare wait makes the outcome depend on the schedule
     cx._ws = ws
     RP.K7(F, rep, cx.R, ws)
@@ -253,7 +253,7 @@ def C07(F, rep, tier, cx):
 
 def C08(F, rep, tier, cx):
     """E1 good()-check between every decode and the commit; E2 zlib result and size checked; K5 the worker that hits the short read
-    declares end of stream on whatever way it leaves Also: E4 sticky failure (stream and compressed file), E5 no decision on header totals, E6 padding stepped over not read, O3 workers started / joined."""
+    declares end of stream on whatever way it leaves Also: E4 sticky failure (stream and compressed file), E5 no decision on header totals, E6 padding stepped over not read, O3 workers started / joined. Round 6: S1e, P9, K7."""
     RF.E1(F, rep, cx.FL)
     RF.E2B3(F, rep, cx.FL, {'E2'})
     RF.E4(F, rep)
@@ -274,7 +274,7 @@ def C08(F, rep, tier, cx):
 
 def C09(F, rep, tier, cx):
     """S1 resynchronisation table implied by the signature constant; S2 unknown-type path advances by the declared size from the object
-    start and returns normally; S3 decode starts at the object start; S4 the stream's seekg is relative, bounded only by the declared end Also: S1e, K2s/K2u, R5 containers delivered while the reader is ahead are stored, T1 the stream continues at the declared end, S2 reasons to throw / skip."""
+    start and returns normally; S3 decode starts at the object start; S4 the stream's seekg is relative, bounded only by the declared end Also: S1e, K2s/K2u, R5 containers delivered while the reader is ahead are stored, T1 the stream continues at the declared end, S2 reasons to throw / skip. Round 6: B7, P9, K7; S4 unconditional clamp."""
     RF.S1(F, rep)
     RF.S1e(F, rep, cx.FL)
     RF.S2S3(F, rep, cx.FL, {'S2', 'S3'})
@@ -291,7 +291,7 @@ def C09(F, rep, tier, cx):
 
 def C10(F, rep, tier, cx):
     """B1 every read sink bounded by its buffer; B3 container size invariant; B4 (ptr,len) pairs; B5 raw I/O on trivially copyable types;
-    K10 no exception escapes a thread; K5 end of stream on all worker exits incl. catch(...); T1 progress of the decode loop; DN null checks Also: B7 incl. fresh lookup, S1e, K2s/K2u, K6, O5, E1; T1 with both re-positioning shapes."""
+    K10 no exception escapes a thread; K5 end of stream on all worker exits incl. catch(...); T1 progress of the decode loop; DN null checks Also: B7 incl. fresh lookup, S1e, K2s/K2u, K6, O5, E1; T1 with both re-positioning shapes. Round 6: T1 narrowing of the step back, O6 no worker opens/closes the file, K7, P9."""
     run_layout(F, rep, read_rules=('B1', 'B5'), extra_classes=(FILESTAT,))
     RF.E2B3(F, rep, cx.FL, {'B3', 'B4'})
     RP.K10(F, rep, cx.R, cx.FL)
@@ -317,7 +317,7 @@ def C10(F, rep, tier, cx):
 
 def C11(F, rep, tier, cx):
     """K1 lockset on the three stage classes; K9 File fields touched by workers are atomic / stages / phase-exclusive; O1 no use after
-    an ownership sink Also: G1 no shared function-local state, O5 no non-owning member into released storage, smart owners."""
+    an ownership sink Also: G1 no shared function-local state, O5 no non-owning member into released storage, smart owners. Round 6: O7 fresh container per hand-over, K9c configuration read behind a hand-over."""
     RP.K1(F, rep, cx.R)
     rep.obs = [o for o in rep.obs if o['rule'] != 'K4']
     rep.counts.pop('K4', None)
@@ -330,7 +330,7 @@ def C11(F, rep, tier, cx):
 
 
 def C12(F, rep, tier, cx):
-    """P1 finite capacities configured; P2 every insertion preceded by a back-pressure wait; P3 dropOldData on every committing path Also: P4, P5, P6 no rewind after a drop, P7 the drop releases every consumed container, P8 what is held against the capacity, K13 abort only at shutdown."""
+    """P1 finite capacities configured; P2 every insertion preceded by a back-pressure wait; P3 dropOldData on every committing path Also: P4, P5, P6 no rewind after a drop, P7 the drop releases every consumed container, P8 what is held against the capacity, K13 abort only at shutdown. Round 6: B3 a container occupies what it declares, K7."""
     RP.P(F, rep, cx.R, cx.FL, cx.ws())
     RP.P6(F, rep, cx.R, cx.FL)
     RP.P8(F, rep, cx.R, cx.ws())
@@ -345,7 +345,7 @@ def C12(F, rep, tier, cx):
 
 def C13(F, rep, tier, cx):
     """O2 every owned pointer transferred/deleted/returned exactly once on every path (incl. the queue's own write); O3 thread
-    start/join pairing, open/close guards, ~File -> close; O4 ~ObjectQueue drains; K6 every joined worker's waits are released Also: smart owners; O3 mode recorded late / workers started / idle open paths / ~File on every path; K12; A1."""
+    start/join pairing, open/close guards, ~File -> close; O4 ~ObjectQueue drains; K6 every joined worker's waits are released Also: smart owners; O3 mode recorded late / workers started / idle open paths / ~File on every path; K12; A1. Round 6: M1, O6, K12 ends-on-input."""
     qwrite = cx.R.stages['m_readWriteQueue'] + '::write'
     RF.O1O2(F, rep, cx.FL, [RF.U2Q, RF.Q2U, FILE + '::read', FILE + '::write', qwrite], rules=('O2',))
     RF.O3(F, rep, cx.R, cx.FL)
@@ -358,7 +358,7 @@ def C13(F, rep, tier, cx):
 
 
 def C14(F, rep, tier, cx):
-    """D4 every serialised scalar has an initialiser; B6 every write source is object state; Z1 skipp writes zeroes Also: D6, G1 (incl. const statics from run-time state), K11, K2/K2a, B5/B2, D4 over File and its stages."""
+    """D4 every serialised scalar has an initialiser; B6 every write source is object state; Z1 skipp writes zeroes Also: D6, G1 (incl. const statics from run-time state), K11, K2/K2a, B5/B2, D4 over File and its stages. Round 6: K9c, R5, F8."""
     RD.D4(F, rep)
     RD.D6(F, rep)
     run_layout(F, rep, write_rules=('B6', 'B5', 'B2'), extra_classes=(FILESTAT,))
@@ -377,7 +377,7 @@ def C15(F, rep, tier, cx):
     that holds the position; R1 position / pointer / remaining count / get count advance by the bytes copied; R2 short read at the
     declared end, end follows the put position; R3 appended containers never overlap the partly filled tail; B3 buffer and size field change together (nextLogContainer, new containers);
     P5 appended containers chain their filePosition; P4 dropOldData pops only what lies behind the get position; S4 seekg is relative and
-    bounded by the declared end only; E4 the failure state is sticky; K1 all of it under the stream's mutex"""
+    bounded by the declared end only; E4 the failure state is sticky; K1 all of it under the stream's mutex Round 6: S4 clamp for every offset, R3 end-of-last only where nothing covers the put position."""
     RF.B7(F, rep)
     RF.R1(F, rep)
     RF.R2(F, rep, cx.FL)
@@ -395,7 +395,7 @@ def C15(F, rep, tier, cx):
 
 
 def C16(F, rep, tier, cx):
-    """Q1 FIFO discipline on the std::queue; Q2 null/eof only on the empty branch; K2/K3 abort atom and notify completeness for the queue Also: Q3 exact capacity atom, K2a bare disjuncts."""
+    """Q1 FIFO discipline on the std::queue; Q2 null/eof only on the empty branch; K2/K3 abort atom and notify completeness for the queue Also: Q3 exact capacity atom, K2a bare disjuncts. Round 6: K15 abort is final."""
     RP.Q(F, rep, cx.R, cx.FL)
     qcls = {cx.R.stages['m_readWriteQueue']}
     ws = RP.K2(F, rep, cx.R, classes=qcls)
@@ -407,7 +407,7 @@ def C16(F, rep, tier, cx):
 
 def C17(F, rep, tier, cx):
     """D1 factory <-> constructor agreement for all enumerators and classes; D2 reserved/unknown -> null; D3 exhaustive switch;
-    D4 complete member initialisation; D5 code flows ctor -> field -> write Also: D6, D7 frozen numeric codes, G1, S2 the factory is asked unconditionally, A1 write() passes every object on."""
+    D4 complete member initialisation; D5 code flows ctor -> field -> write Also: D6, D7 frozen numeric codes, G1, S2 the factory is asked unconditionally, A1 write() passes every object on. Round 6: D8 complete hand-written copies; guards / value helpers in front of the switch evaluated with unsigned arithmetic."""
     RD.D123(F, rep)
     RD.D5(F, rep, None)
     RD.D4(F, rep)
